@@ -47,6 +47,11 @@ CHECKS = {
             'Bounded model checking: F(hR)=F(h)exp(-2 pi i h.t) for every operation of the group and every orbit representative of the hkl box, extinct => F=0, Friedel; all atom parameters symbolic; quick: 27 groups covering every Laue class, thorough: all 230.', 'sintl and cell_invert enter through their C01 summaries.', '6/C07'),
     'C08': ('same harness as C07: StructureFactor against the explicit sum over image atoms written in the harness; identities decided by z3/cvc5',
             'Bounded model checking: explicit-sum equality, lattice-shift invariance, linearity in occupancy, Uiso == equivalent Uani, F(000) with zero ADP; box hkl, one symbolic atom, symbolic metric of the family.', 'sintl and cell_invert enter through their C01 summaries.', '6/C08'),
+    'C11': ('enumeration of the 81 orientation matrices (they select control flow) with everything else symbolic: images as index maps of symbolic shape, pixel coordinates as solver integers/reals (QF_LIA/LRA); eta/radius on the fraction-field proxies (QF_NRA)',
+            'Model checking: image round trips, pixel-map agreement with trans_orientation and coordinate round trips decided for every detector shape n0,n1 >= 1 and every pixel at once; invalid matrices rejected; eta/radius conversions mutual inverses for r >= 1 on every path.', '', '6/C11'),
+    'C15': ('path exploration of the real multiplicity on solver reals (positions in affine families over boxes, integer lattice shifts) with floor/round as to_int terms (QF_LIRA); grid points as exact binary64 inputs; orbit-stabiliser oracle from the ideal operators',
+            'Model checking: for each setting the loop of multiplicity is unrolled by execution; every merge test is a solver decision valid for all positions of the family (x,y,z), (x,x,z), (x,2x,z), (x,-x,z) in the stated boxes with any lattice shift in [-2,2]^3; '
+            'grid points (8 points x 3 shifts) are concrete runs against the exact oracle.', 'Quick tier: families only for groups with <= 16 operations and four larger sample groups.', '6/C15'),
 }
 NA_REASON = {}
 
